@@ -299,3 +299,62 @@ func init() {
 		return ""
 	}
 }
+
+// C07 (deep parses): deeply nested expressions parsed by many goroutines at
+// once. Limits, counters and pools that a parser shares between calls add up
+// across goroutines; every call must still return what it returns alone. Run
+// with the plain binary (the race detector makes deep recursion very slow;
+// what is checked here is the outcome).
+func TestC07_DeepParse(t *testing.T) {
+	c := collector("C07", "deep-parse")
+	check(t, func(t *rapid.T) {
+		sc := c07Scenario{}
+		doc := jv.VObj([]jv.Member{{K: "a", V: jv.VInt(1)}, {K: "b", V: jv.VNull()}})
+		sc.Docs = []run.Node{run.FromVal(doc)}
+		ne := rapid.IntRange(2, 3).Draw(t, "ndeep")
+		total := 0
+		for i := 0; i < ne; i++ {
+			d := gen.Pick(t, "depth", []int{5000, 20000, 40000})
+			inner := gen.Pick(t, "inner", []string{"a", "b", "`1`", "@"})
+			var text string
+			switch rapid.IntRange(0, 5).Draw(t, "deepkind") {
+			case 0:
+				text = strings.Repeat("(", d) + inner + strings.Repeat(")", d)
+			case 1:
+				text = strings.Repeat("!", d) + inner
+			case 2:
+				text = strings.Repeat("[", d) + inner + strings.Repeat("]", d) + "[0]"
+			case 3:
+				text = strings.Repeat("not_null(", d/2) + inner + strings.Repeat(")", d/2)
+			case 4:
+				text = strings.Repeat("{k: ", d/2) + inner + strings.Repeat("}", d/2) + ".k"
+			default:
+				text = inner + strings.Repeat(" || "+inner, d/2)
+			}
+			total += d
+			sc.Exprs = append(sc.Exprs, text)
+			sc.Loose = append(sc.Loose, false)
+			sc.Multi = append(sc.Multi, []bool{false})
+		}
+		ng := gen.Pick(t, "goroutines", []int{8, 12, 16, 24})
+		nops := rapid.IntRange(2, 4).Draw(t, "ops")
+		for g := 0; g < ng; g++ {
+			ops := make([]c07Op, nops)
+			for k := range ops {
+				ops[k] = c07Op{Kind: gen.Pick(t, "opkind", []string{"search", "compile"}), Expr: rapid.IntRange(0, ne-1).Draw(t, "e")}
+			}
+			sc.Goroutines = append(sc.Goroutines, ops)
+		}
+		sc.Procs = 16
+		c.Case()
+		if msg := c07Run(sc); msg != "" {
+			short := sc
+			c.Fail(t, run.Replay{Check: "deep-parse", Kind: "custom:c07", Calls: []run.Call{{API: "search", Expr: truncate(sc.Exprs[0], 200), Doc: &sc.Docs[0]}}, Message: truncate(msg, 600), Extra: mustJSON(short)}, "deep-parse")
+			return
+		}
+		c.Label("ok")
+		c.NonTrivial(fmt.Sprint(total, ng, nops, len(sc.Exprs[0])), func() any {
+			return map[string]any{"expressions": ne, "summed_nesting_depth": total, "goroutines": ng, "ops_per_goroutine": nops}
+		})
+	})
+}
